@@ -269,13 +269,14 @@ def astig_case(arg):
             if sign is None:
                 raise MachineryError("float parallax oracle does not reproduce TLC's exact defocus case with either sign")
             d1, _ = make(vbf, ds, abset, rot)
-            o, W = oracle(d1, {k_: v for k_, v in abset.items()}, rot, sign)
+            polar = {{"astigmatism": "C12", "astigmatism_angle": "phi12"}.get(k_, k_): v for k_, v in abset.items()}
+            o, W = oracle(d1, polar, rot, sign)
             for bsz in (None, 2):
                 r1 = d1.reconstruct(deconvolution_kernel=["prlx", "parallax", "tcbf"][idx % 3], parallax_flip_phase=False, verbose=0,
                                     max_batch_size=bsz).corrected_stack.numpy() * W
                 dev = float(np.abs(r1 - o).max())
                 if dev > 2e-3 * max(1.0, float(np.abs(o).max())):
-                    kind = "astigmatism" if abset.get("C12") else "defocus"
+                    kind = "astigmatism" if (abset.get("C12") or abset.get("astigmatism")) else "defocus"
                     out.append((f"C04:parallax:{kind}-shift", f"{tag}: W*stack differs from the images translated by grad(chi)/2pi by {dev:.3g} "
                                 f"(scale {float(np.abs(o).max()):.3g})"))
                     break
@@ -400,9 +401,10 @@ def check(rep, tier, seed):
         for key, msg in probs:
             rep.mismatch(key, msg, {"parallax_case": c, "message": msg})
     # defocus + astigmatism at any axis angle, float oracle calibrated on TLC's exact defocus cases
+    # (also sets that name ONE coefficient only, and the alias spelling of the astigmatism magnitude)
     absets = [{"C10": 120.0, "C12": 70.0, "phi12": 0.4}, {"C10": -90.0, "C12": 55.0, "phi12": -1.1}, {"C12": 80.0, "phi12": 0.9},
-              {"C10": 60.0, "C12": 40.0, "phi12": 0.0}, {"C10": 140.0}]
-    ajobs = [(c, i, absets[i % len(absets)], [0.0, 17.0][(i // len(absets)) % 2]) for i, c in enumerate(cases[: (10 if quick else 60)])]
+              {"C10": 60.0, "C12": 40.0, "phi12": 0.0}, {"C10": 140.0}, {"C12": 70.0}, {"astigmatism": 55.0}]
+    ajobs = [(cases[i % len(cases)], i, absets[i % len(absets)], [0.0, 17.0][(i // len(absets)) % 2]) for i in range(14 if quick else 70)]
     res = pmap(astig_case, ajobs, procs=16, chunk=1)
     for j, probs in zip(ajobs, res):
         rep.add_traces(1)
